@@ -1,5 +1,6 @@
 import Driver.Util
 import GitBugModel.Model.GitTree
+import GitBugModel.Model.Ident
 /-! Driver command for C15: git's tree order and what fsck accepts. -/
 namespace Driver.C15
 open Lean Driver GitBugModel.GitTree
@@ -17,6 +18,13 @@ def handle (j : Json) : Json :=
     -- entries in the order they are stored: does fsck accept them, is it the sorted order
     let es := (getArr j "entries").map entryOf
     Json.mkObj [("ok", Json.bool (fsckTreeOk es)), ("sorted", Json.bool (sortTree es == es))]
+  | "ident" =>
+    -- configured name and email: the `name <email>` part of the line the commit carries
+    let n := GitBugModel.Ident.cleanIdent (getStr j "name").toList
+    let e := GitBugModel.Ident.cleanIdent (getStr j "email").toList
+    let line := n ++ [' ', '<'] ++ e ++ ['>']
+    Json.mkObj [("line", Json.str (String.ofList line)),
+                ("fsck", Json.bool ((GitBugModel.Ident.fsckIdent (GitBugModel.Ident.identLine n e "1790748343 +0000".toList)).isNone))]
   | c => Json.mkObj [("bad-op", Json.str c)]
 
 end Driver.C15
